@@ -395,6 +395,8 @@ func (m *machine) setModeDirect(mode string, asof time.Time, noDate bool) {
 	if noDate {
 		content = mode
 	}
+	// hand-edited mode files end in a newline (or CRLF); surrounding white space is not part of the mode or the date
+	content += []string{"", "", "\n", "\r\n", " "}[m.t.Draw(5)]
 	os.WriteFile(filepath.Join(m.tele, "mode"), []byte(content), 0666)
 }
 
